@@ -590,7 +590,10 @@ pub fn run_one(run: &Value) -> Vec<Value> {
         log(&mm, json!({"e": "drain"}));
         let mut stable = 0;
         let mut rounds = 0;
-        while stable < 2 && rounds < 3000 {
+        // (bounded: a client may legitimately keep exchanging noidle / idle on its own timer for ever - one round per outstanding request
+        // plus a margin is enough for everything that was issued to be answered)
+        let cap = 60 + 2 * d.issued.iter().sum::<usize>();
+        while stable < 2 && rounds < cap {
             rounds += 1;
             let before = mm.lock().unwrap().log.len();
             d.batch(&[json!({"op": "deliver"})]).await;
